@@ -1,5 +1,11 @@
 mod storage;
 
+/// Verification hooks: re-exports of otherwise private items
+#[cfg(feature = "verif")]
+pub mod verif_api {
+    pub use super::storage::*;
+}
+
 use std::cell::RefCell;
 use std::rc::Rc;
 use std::time::Duration;
@@ -35,6 +41,9 @@ pub async fn run_swarm_worker(
     // Periodically clean torrents
     TimerActionRepeat::repeat(enclose!((config, torrents, access_list) move || {
         enclose!((config, torrents, access_list) move || async move {
+            #[cfg(feature = "verif")]
+            aquatic_common::verif::probe("http:swarm:clean", worker_index as u64);
+
             torrents.borrow_mut().clean(&config, &access_list, server_start_instant);
 
             Some(Duration::from_secs(config.cleaning.torrent_cleaning_interval))
@@ -102,6 +111,13 @@ async fn handle_request_stream<S>(
     let mut rng: SmallRng = make_rng();
 
     while let Some(channel_request) = stream.next().await {
+        #[cfg(feature = "verif")]
+        if let aquatic_common::verif::ProbeAction::Return =
+            aquatic_common::verif::probe("http:swarm:request", 0)
+        {
+            return;
+        }
+
         match channel_request {
             ChannelRequest::Announce {
                 request,
